@@ -136,8 +136,8 @@ func genXFF(r *hx.Rand, remote string) []string {
 	host, _, _ := net.SplitHostPort(remote)
 	for i := 0; i < nl; i++ {
 		n := 1 + r.Intn(4)
-		if r.Chance(1, 30) {
-			n = 12 + r.Intn(20)
+		if r.Chance(1, 10) {
+			n = 8 + r.Intn(40)
 		}
 		els := make([]string, n)
 		for j := range els {
@@ -363,6 +363,163 @@ type authIn struct {
 	Registered []string   `json:"registered"`
 	Secrets    [][]string `json:"secrets"`
 	Cred       credIn     `json:"cred"`
+	Req        reqExtra   `json:"req"`
+}
+
+// reqExtra is the rest of the request: the gate has to judge a request by its peer, its X-Forwarded-For lines and
+// the credentials of its first Authorization line - whatever the method and whatever else it carries.
+type reqExtra struct {
+	Method string     `json:"method"` // "" = GET
+	Auth   string     `json:"auth"`   // non-empty: the Authorization line as sent instead of the canonical encoding of cred
+	Hdrs   [][]string `json:"hdrs"`   // further header lines [name, value], sent in this order after X-Forwarded-For and Authorization
+}
+
+func b64(user, pass string) string { return base64.StdEncoding.EncodeToString([]byte(user + ":" + pass)) }
+
+// authLine is the Authorization line of a request ("" = none).
+func (c credIn) authLine(x reqExtra) string {
+	if x.Auth != "" {
+		return x.Auth
+	}
+	h := http.Header{}
+	c.apply(h)
+	return h.Get("Authorization")
+}
+
+// headerLines lists every header line of the request in the order it is sent.
+func headerLines(xff []string, c credIn, x reqExtra) ([][2]string, error) {
+	var ls [][2]string
+	for _, l := range xff {
+		ls = append(ls, [2]string{"X-Forwarded-For", l})
+	}
+	if a := c.authLine(x); a != "" {
+		ls = append(ls, [2]string{"Authorization", a})
+	}
+	for _, h := range x.Hdrs {
+		if len(h) != 2 || h[0] == "" {
+			return nil, fmt.Errorf("header line %q is not [name, value]", h)
+		}
+		ls = append(ls, [2]string{h[0], h[1]})
+	}
+	return ls, nil
+}
+
+// libBasicAuth is what net/http itself reads out of these lines (server side: every name canonicalised, lines of
+// one name kept in order): the oracle for the model's parseBasicAuth, and the pair the specification asks about.
+func libBasicAuth(lines [][2]string) map[string]interface{} {
+	h := http.Header{}
+	for _, l := range lines {
+		h.Add(l[0], l[1])
+	}
+	u, p, ok := (&http.Request{Header: h}).BasicAuth()
+	return map[string]interface{}{"ok": ok, "u": hex.EncodeToString([]byte(u)), "p": hex.EncodeToString([]byte(p))}
+}
+
+// allXFF: the X-Forwarded-For lines of a request, whatever the spelling of the name.
+func allXFF(lines [][2]string) []string {
+	out := []string{}
+	for _, l := range lines {
+		if strings.EqualFold(l[0], "X-Forwarded-For") {
+			out = append(out, l[1])
+		}
+	}
+	return out
+}
+
+var (
+	reqMethods = []string{"GET", "GET", "POST", "PUT", "DELETE", "HEAD", "OPTIONS", "OPTIONS", "PATCH", "PROPFIND"}
+	// request shapes clients really send: a CORS preflight, the XHR that follows it, a form post, a health probe,
+	// a request through another proxy, a client that puts its credentials where they do not belong
+	reqProfiles = []reqExtra{
+		{Method: "OPTIONS", Hdrs: [][]string{{"Origin", "https://app.example"}, {"Access-Control-Request-Method", "PUT"}}},
+		{Method: "OPTIONS", Hdrs: [][]string{{"Origin", "null"}, {"Access-Control-Request-Method", "GET"}, {"Access-Control-Request-Headers", "authorization"}}},
+		{Method: "OPTIONS", Hdrs: [][]string{{"origin", "https://app.example"}, {"access-control-request-method", "DELETE"}}},
+		{Method: "PUT", Hdrs: [][]string{{"Origin", "https://app.example"}, {"X-Requested-With", "XMLHttpRequest"}, {"Content-Type", "application/json"}}},
+		{Method: "POST", Hdrs: [][]string{{"Content-Type", "application/x-www-form-urlencoded"}, {"Cookie", "session=alice"}}},
+		{Method: "HEAD", Hdrs: [][]string{{"User-Agent", "kube-probe/1.27"}}},
+		{Method: "GET", Hdrs: [][]string{{"Via", "1.1 edge"}, {"Forwarded", "for=10.1.2.3;proto=https"}, {"X-Real-Ip", "10.1.2.3"}, {"X-Forwarded-Proto", "https"}}},
+		{Method: "GET", Hdrs: [][]string{{"Proxy-Authorization", "Basic " + b64("alice", "secret")}}},
+		{Method: "GET", Hdrs: [][]string{{"X-Authorization", "Basic " + b64("alice", "secret")}, {"X-Forwarded-User", "alice"}, {"X-Remote-User", "alice"}}},
+		{Method: "OPTIONS", Hdrs: [][]string{}},
+		{Method: "TRACE", Hdrs: [][]string{{"Max-Forwards", "0"}}},
+	}
+	reqHdrs = [][]string{
+		{"Origin", "https://app.example"}, {"Access-Control-Request-Method", "POST"}, {"Access-Control-Request-Headers", "x-token"},
+		{"Cookie", "user=alice; auth=secret"}, {"X-Requested-With", "XMLHttpRequest"}, {"Content-Type", "application/json"},
+		{"Accept", "*/*"}, {"User-Agent", "c12"}, {"X-Forwarded-Proto", "https"}, {"X-Forwarded-Host", "intranet"},
+		{"Forwarded", "for=127.0.0.1"}, {"X-Real-Ip", "127.0.0.1"}, {"X-Forwarded-User", "alice"},
+		{"Proxy-Authorization", "Basic " + b64("bob", "hunter2")}, {"X-Authorization", "Basic " + b64("bob", "hunter2")},
+		// further lines of the names the gate does read, in other spellings: a second Authorization line never counts,
+		// an X-Forwarded-For line always does
+		{"Authorization", "Basic " + b64("alice", "secret")}, {"authorization", "Basic " + b64("bob", "hunter2")},
+		{"AUTHORIZATION", "Basic " + b64("mallory", "x")}, {"Authorization", "Bearer abc"},
+		{"x-forwarded-for", "9.9.9.9"}, {"X-FORWARDED-FOR", "127.0.0.1, ::1"}, {"X-Forwarded-For", "10.1.2.3"}, {"X-forwarded-for", "fe80::1%eth0, 127.0.0.1"},
+	}
+)
+
+// authSpellings: other ways to write the Authorization line of a pair - some of which net/http reads back as the
+// pair (scheme word in any case, non-zero trailing bits), some not (padding missing, two blanks, URL alphabet, …).
+func authSpellings(r *hx.Rand, user, pass string) string {
+	e := b64(user, pass)
+	switch r.Intn(12) {
+	case 0:
+		return "basic " + e
+	case 1:
+		return "BASIC " + e
+	case 2:
+		return "bAsIc " + e
+	case 3:
+		return "Basic " + strings.TrimRight(e, "=") // padding dropped
+	case 4:
+		return "Basic  " + e // two blanks
+	case 5:
+		return "Basic\t" + e
+	case 6:
+		return "Basic " + e + "="
+	case 7:
+		return "Basic " + e + " "
+	case 8: // the bits of the last character that do not belong to a byte
+		if strings.HasSuffix(e, "==") {
+			i := len(e) - 3
+			return "Basic " + e[:i] + string(b64alpha[(strings.IndexByte(b64alpha, e[i])&^15)|r.Intn(16)]) + "=="
+		}
+		if strings.HasSuffix(e, "=") {
+			i := len(e) - 2
+			return "Basic " + e[:i] + string(b64alpha[(strings.IndexByte(b64alpha, e[i])&^3)|r.Intn(4)]) + "="
+		}
+		return "Basic " + e
+	case 9:
+		return "Basic " + strings.NewReplacer("+", "-", "/", "_").Replace(b64(user+"~~~", pass+"???")) // URL alphabet
+	case 10:
+		return "Basic " + base64.StdEncoding.EncodeToString([]byte(user+pass)) // no colon
+	default:
+		return "Basic" + e
+	}
+}
+
+const b64alpha = "ABCDEFGHIJKLMNOPQRSTUVWXYZabcdefghijklmnopqrstuvwxyz0123456789+/"
+
+func genReqExtra(r *hx.Rand, c credIn) reqExtra {
+	var x reqExtra
+	switch r.Intn(4) {
+	case 0:
+		return x // a plain GET
+	case 1:
+		p := reqProfiles[r.Intn(len(reqProfiles))]
+		x = reqExtra{Method: p.Method, Hdrs: append([][]string{}, p.Hdrs...)}
+	default:
+		x.Method = r.Pick(reqMethods)
+	}
+	for n := r.Intn(4); n > 0; n-- {
+		x.Hdrs = append(x.Hdrs, reqHdrs[r.Intn(len(reqHdrs))])
+	}
+	if c.Mode == "basic" && !strings.Contains(c.User, ":") && r.Chance(1, 4) {
+		x.Auth = authSpellings(r, c.User, c.Pass)
+	}
+	if x.Hdrs == nil {
+		x.Hdrs = [][]string{}
+	}
+	return x
 }
 
 var (
@@ -428,7 +585,9 @@ func genCred(r *hx.Rand) credIn {
 	case 0:
 		return credIn{Mode: "none"}
 	case 1:
-		return credIn{Mode: "garbage", User: r.Pick([]string{"Basic !!!", "Bearer abc", "Basic", "Basic YWxpY2U=", "Digest YWxpY2U6c2VjcmV0"})}
+		return credIn{Mode: "garbage", User: r.Pick([]string{"Basic !!!", "Bearer abc", "Basic", "Basic YWxpY2U=", "Digest YWxpY2U6c2VjcmV0",
+			"Basic YWxpY2U6c2VjcmV0=", "Basic  YWxpY2U6c2VjcmV0", "BasicYWxpY2U6c2VjcmV0", "YWxpY2U6c2VjcmV0", "Basic Ym9iOmh1bnRlcjI", "Basic Ym9iOmh1bnRlcjI==",
+			"Basic Ym9i=mh1bnRlcjI=", "Basic YWxpY2U6c2VjcmV0 YWxpY2U6c2VjcmV0", "Basic alice:secret", "Negotiate YWxpY2U6c2VjcmV0", "Basic =", "Basic ====", "Basic Y"})}
 	case 2, 3:
 		return credIn{Mode: "basic", User: r.Pick([]string{"alice", "bob", "mallory", "", "Alice"}), Pass: r.Pick([]string{"secret", "hunter2", "", "x", "Secret"})}
 	default:
@@ -452,6 +611,7 @@ func genAuth(r *hx.Rand) authIn {
 	default:
 		in.Scheme = r.Pick(schemeNames)
 	}
+	in.Req = genReqExtra(r, in.Cred)
 	return in
 }
 
@@ -468,16 +628,107 @@ func runAuth(raw json.RawMessage) (interface{}, error) {
 		return nil, err
 	}
 	t := &route.Target{AuthScheme: in.Scheme}
+	lines, err := headerLines(nil, in.Cred, in.Req)
+	if err != nil {
+		return nil, err
+	}
+	method := in.Req.Method
+	if method == "" {
+		method = "GET"
+	}
 	req := httptest.NewRequest("GET", "http://c12.test/", nil)
-	in.Cred.apply(req.Header)
+	req.Method = method
+	for _, l := range lines {
+		req.Header.Add(l[0], l[1])
+	}
+	ba := libBasicAuth(lines)
 	rec := httptest.NewRecorder()
 	ok := t.Authorized(req, rec, schemes)
-	return map[string]interface{}{"ok": ok, "challenge": rec.Header().Get("WWW-Authenticate") != ""}, nil
+	return map[string]interface{}{"ok": ok, "ba": ba, "challenge": rec.Header().Get("WWW-Authenticate") != ""}, nil
+}
+
+// ---------------------------------------------------------------------------------------------------------
+// c12.basicauth - the Authorization line -> (user, password): net/http's Request.BasicAuth against the model
+// ---------------------------------------------------------------------------------------------------------
+
+type basicAuthIn struct {
+	H    string   `json:"h"`    // the Authorization line (ASCII)
+	Pair []string `json:"pair"` // set when h is "Basic " (any case) + StdEncoding of user:password, user without colon: hex user, hex password
+}
+
+var (
+	baUsers  = []string{"alice", "bob", "a", "", "Aladdin", "user name", "\xe4lice", "u\x00", "ab", "abc"}
+	baPasses = []string{"secret", "hunter2", "", "x", ":", "a:b", "open sesame", "p\xff\xfe", "::", "c", "bc", "\r\n"}
+)
+
+func genBasicAuth(r *hx.Rand) basicAuthIn {
+	u, p := r.Pick(baUsers), r.Pick(baPasses)
+	if r.Chance(1, 5) {
+		u = strings.ReplaceAll(string(r.Bytes(r.Intn(7))), ":", "")
+		p = string(r.Bytes(r.Intn(7)))
+	}
+	pair := []string{hex.EncodeToString([]byte(u)), hex.EncodeToString([]byte(p))}
+	switch r.Intn(5) {
+	case 0:
+		return basicAuthIn{H: "Basic " + b64(u, p), Pair: pair}
+	case 1:
+		return basicAuthIn{H: r.Pick([]string{"basic ", "BASIC ", "bASIC ", "BaSiC "}) + b64(u, p), Pair: pair}
+	case 2:
+		return basicAuthIn{H: authSpellings(r, u, p)}
+	}
+	// a correct line with one to three edits
+	b := []byte("Basic " + b64(u, p))
+	for k := 1 + r.Intn(3); k > 0; k-- {
+		i := r.Intn(len(b) + 1)
+		const edits = "ABab01+/=-_ \r\n\t:.~Zz9"
+		c := edits[r.Intn(len(edits))]
+		switch {
+		case i == len(b) || r.Chance(1, 3):
+			b = append(b[:i], append([]byte{c}, b[i:]...)...)
+		case r.Chance(1, 2):
+			b = append(b[:i], b[i+1:]...)
+		default:
+			b[i] = c
+		}
+		if len(b) == 0 {
+			break
+		}
+	}
+	return basicAuthIn{H: string(b)}
+}
+
+func runBasicAuth(raw json.RawMessage) (interface{}, error) {
+	var in basicAuthIn
+	if err := json.Unmarshal(raw, &in); err != nil {
+		return nil, err
+	}
+	for _, c := range in.H {
+		if c > 0x7e {
+			return nil, fmt.Errorf("line not ASCII")
+		}
+	}
+	u, p, ok := (&http.Request{Header: http.Header{"Authorization": {in.H}}}).BasicAuth()
+	return map[string]interface{}{"ok": ok, "u": hex.EncodeToString([]byte(u)), "p": hex.EncodeToString([]byte(p))}, nil
 }
 
 // ---------------------------------------------------------------------------------------------------------
 
 func init() {
+	hx.Register(&hx.Stream{
+		Name: "c12.basicauth",
+		Corpus: []interface{}{
+			basicAuthIn{H: "Basic YWxpY2U6c2VjcmV0", Pair: []string{"616c696365", "736563726574"}},
+			basicAuthIn{H: "basic YTo=", Pair: []string{"61", ""}},
+			basicAuthIn{H: "Basic Og==", Pair: []string{"", ""}},
+			basicAuthIn{H: "Basic YTp="}, basicAuthIn{H: "Basic YT\r\npi"}, basicAuthIn{H: "Basic YTo"}, basicAuthIn{H: "Basic YTo=="},
+			basicAuthIn{H: "Basic YTo=\n"}, basicAuthIn{H: "Basic YTo\n="}, basicAuthIn{H: "Basic Y=o="}, basicAuthIn{H: "Basic YQ=\r="}, basicAuthIn{H: "Basic YQ=:"},
+			basicAuthIn{H: "Basic  YTo="}, basicAuthIn{H: "Basic"}, basicAuthIn{H: "Basic "}, basicAuthIn{H: ""}, basicAuthIn{H: "Basi"},
+			basicAuthIn{H: "Bearer YTo="}, basicAuthIn{H: "Basic YWxpY2U="}, basicAuthIn{H: "Basic YTo=YTo="}, basicAuthIn{H: "Basic YTpi-_8="},
+		},
+		Gen: func(r *hx.Rand, i int) interface{} { return genBasicAuth(r) },
+		Run: runBasicAuth,
+	})
+
 	hx.Register(&hx.Stream{
 		Name: "c12.parse",
 		Corpus: []interface{}{
